@@ -38,30 +38,30 @@ type s1Gen struct {
 }
 
 type harnessS1 struct {
-	w   *core.World
-	r   *rig.Rig1
-	act bool
-	eq  bool
-	plans []s1Plan
-	senders int
-	closeAt time.Duration
-	reopen  bool
+	w                  *core.World
+	r                  *rig.Rig1
+	act                bool
+	eq                 bool
+	plans              []s1Plan
+	senders            int
+	closeAt            time.Duration
+	reopen             bool
 	reopenIn, close2In time.Duration
-	dial []int
+	dial               []int
 
-	gens []*s1Gen
-	cur  *s1Gen
-	last hsms.ConnState
-	notes []note
-	tick int
-	changes int
-	coalesce int
+	gens                  []*s1Gen
+	cur                   *s1Gen
+	last                  hsms.ConnState
+	notes                 []note
+	tick                  int
+	changes               int
+	coalesce              int
 	closeCalled, closeRet bool
-	closeRetTick int
-	finished bool
-	stop bool
-	sendersDone int
-	usedListeners int
+	closeRetTick          int
+	finished              bool
+	stop                  bool
+	sendersDone           int
+	usedListeners         int
 }
 
 // BuildE2ESECS1 is the scenario builder of the SECS-I leg.
